@@ -59,6 +59,11 @@ func genC04(t *rapid.T) *Case {
 			c.Events[0].Target = rapid.IntRange(0, 1).Draw(t, "which_tunnel")
 		}
 	}
+	for i := range c.RPCs {
+		if c.RPCs[i].Timeout == 0 && rapid.IntRange(0, 3).Draw(t, fmt.Sprintf("rpc%d.nocancel", i)) == 0 {
+			c.RPCs[i].NoCancelCtx = true // context.Background(): only the end of the tunnel can end this call
+		}
+	}
 	return c
 }
 
